@@ -1,8 +1,8 @@
-"""Rewrite rule R20 (opt-in per fn: `:: macros=dispatch_core,dispatch`), used by the units `streams*`.
+"""Rewrite rule R21 (opt-in per fn: `:: macros=dispatch_core,dispatch`), used by the units `streams*`.
 
 The enum-dispatch methods of src/stream/core.rs and src/stream/tls.rs have bodies that are a single call of a
 file-local `macro_rules!` macro (`dispatch_core!(self.poll_read(cx, buf))`).  `verus!` cannot look into a foreign macro
-call, and writing the expansion down by hand would verify a look-alike.  R20 performs the expansion mechanically:
+call, and writing the expansion down by hand would verify a look-alike.  R21 performs the expansion mechanically:
 
     NAME!( ARGS )   ->   ( TRANSCRIPTION )
 
@@ -58,7 +58,7 @@ def _definition(src, name, unsupported):
     rest = m[be + 1:bc].strip()
     if rest not in ("", ";"):
         raise unsupported("macro_rules! %s has more than one rule" % name)
-    # (comments inside the transcriber are removed by R2 afterwards: R20 runs first)
+    # (comments inside the transcriber are removed by R2 afterwards: R21 runs first)
     return pattern, body
 
 
@@ -191,7 +191,7 @@ def _transcribe(body, binds, elems, name, unsupported):
 
     out = re.sub(r"\$([A-Za-z_][A-Za-z0-9_]*)", one, out)
     if "$" in mask(out):
-        raise unsupported("macro_rules! %s: transcriber construct outside R20" % name)
+        raise unsupported("macro_rules! %s: transcriber construct outside R21" % name)
     return out.strip()
 
 
@@ -212,4 +212,4 @@ def apply(rw, names, unsupported_cls):
             binds = _match(elems, rw.t[mm.end():pc], name, unsupported)
             rw.t = rw.t[:mm.start()] + "(" + _transcribe(body, binds, elems, name, unsupported) + ")" + rw.t[pc + 1:]
             n += 1
-    rw.note("R20", n)
+    rw.note("R21", n)
